@@ -104,7 +104,8 @@ func newState(logOn bool) *scenarioState {
 
 // Reset starts a new scenario: counters, event log and plan are cleared. Roles are kept (goroutines may persist).
 func Reset(withLog bool) {
-	active.Store(nil)
+	ClearPlan()
+	lastPlan.Store(nil)
 	state.Store(newState(withLog))
 }
 
@@ -291,8 +292,14 @@ type HoldOutcome struct {
 // Realised: A was suspended at its point and B ran through its own while A was suspended.
 func (o HoldOutcome) Realised() bool { return o.AHeld && o.BHappened && !o.TimedOut }
 
+var lastPlan atomic.Pointer[plan]
+
+// Outcome reports on the active hold plan, or on the one most recently removed by ClearPlan.
 func Outcome() HoldOutcome {
 	p := active.Load()
+	if p == nil {
+		p = lastPlan.Load()
+	}
 	if p == nil || p.kind != "hold" {
 		return HoldOutcome{}
 	}
@@ -301,9 +308,19 @@ func Outcome() HoldOutcome {
 
 // ClearPlan removes the active plan (and releases a goroutine held by it).
 func ClearPlan() {
-	if p := active.Load(); p != nil && p.kind == "hold" {
-		p.bOnce.Do(func() { close(p.bDone) })
+	p := active.Load()
+	if p == nil {
+		return
 	}
+	if p.kind == "hold" {
+		// what happened up to now is the outcome; a release forced from here is not "B happened"
+		released := p.bHappened.Load()
+		p.bOnce.Do(func() { close(p.bDone) })
+		if !released && p.aHeld.Load() {
+			p.timedOut.Store(true)
+		}
+	}
+	lastPlan.Store(p)
 	active.Store(nil)
 }
 
